@@ -2,6 +2,7 @@ package main
 
 import (
 	"fmt"
+	"math"
 	"strings"
 
 	"verif/internal/harness"
@@ -82,6 +83,7 @@ type pageSpec struct {
 	inverty    bool
 	scale      bool
 	narrow     string // none I 1
+	hyphen     bool   // the first body line ends in a hyphen (a word broken across lines)
 	repeat     string // none word letter: same text at a DIFFERENT position (never a sanctioned duplicate)
 	absent     map[[2]int]bool
 
@@ -113,12 +115,17 @@ func choose(c *harness.Ctx, K, R, W int, mapOrder bool) *pageSpec {
 	p.title = c.PickS("title", "none", "top", "mid")
 	p.list = c.PickS("list", "none", "bullet", "numbered", "nested")
 	p.rtl = c.Bool("rtl")
-	p.charfrag = c.Bool("charfrag")
+	if K*R*W <= 48 { // the pool of page-unique characters covers 56 two-character tokens
+		p.charfrag = c.Bool("charfrag")
+	}
 	p.dup = c.PickS("dup", "none", "all", "line")
 	p.inverty = c.Bool("inverty")
 	p.scale = c.Bool("scale")
 	p.narrow = c.PickS("narrow", "none", "I", "1")
 	p.repeat = c.PickS("repeat", "none", "word", "letter")
+	if R > 1 {
+		p.hyphen = c.Bool("hyphen")
+	}
 	for col := 0; col < K; col++ {
 		for row := 0; row < R; row++ {
 			if K*R == 1 {
@@ -210,27 +217,35 @@ func (p *pageSpec) build() {
 		return y
 	}
 
-	// spanning title: three words centred on the page
+	// spanning title: five words spread over the full content width, one of them centred on a column gutter
+	// (that is what makes a line "spanning" for the column detector: content inside a gap and a wide line)
 	if p.title != "none" {
-		words := []string{ts.next(), ts.next(), ts.next()}
-		tw := 0.0
-		for _, w := range words {
-			tw += textWidth(w, bodySize)
-		}
-		tw += 2 * space
-		x := marginL + (contentW-tw)/2
 		y := topY + 60
 		if p.title == "mid" {
 			y = topY - float64(midAfter)*leading - 1.5*leading
 		}
-		for _, w := range words {
+		centers := make([]float64, 5)
+		for i := range centers {
+			centers[i] = marginL + contentW*(float64(i)+0.5)/5
+		}
+		if p.K > 1 {
+			g := p.colX((p.K-1)/2) + cw + gutter/2 // centre of a middle gutter
+			best := 0
+			for i := range centers {
+				if math.Abs(centers[i]-g) < math.Abs(centers[best]-g) {
+					best = i
+				}
+			}
+			centers[best] = g
+		}
+		for _, cx := range centers {
+			w := ts.next()
 			ww := textWidth(w, bodySize)
-			out = append(out, frag{text: w, x: x, y: y, w: ww, size: bodySize, role: "title", col: -1, row: -1})
-			x += ww + space
+			out = append(out, frag{text: w, x: cx - ww/2, y: y, w: ww, size: bodySize, role: "title", col: -1, row: -1})
 		}
 	}
 
-	doubled := false
+	doubled, hyphenated := false, false
 	maxRight := 0.0
 	lastColFirstLineEnd := -1 // index in out of the last fragment of row 0 of the last column
 	for col := 0; col < p.K; col++ {
@@ -265,7 +280,7 @@ func (p *pageSpec) build() {
 				}
 				var m string
 				if p.list == "bullet" {
-					m = bullets[row]
+					m = bullets[row%len(bullets)]
 				} else {
 					m = fmt.Sprintf("%d.", row+2)
 				}
@@ -281,6 +296,10 @@ func (p *pageSpec) build() {
 					words[k] = ts.nextHebrew()
 				} else {
 					words[k] = ts.next()
+					if p.hyphen && !hyphenated && k == nw-1 {
+						words[k] += "-"
+						hyphenated = true
+					}
 					if p.repeat == "letter" && !doubled {
 						// the first body word ends in a doubled letter: two identical adjacent glyphs once fragmented
 						r := []rune(words[k])
